@@ -15,12 +15,14 @@ PROPS = {
         "assumptions": ["exactness of the XYZ/LMS/Lab/LCh/OkLab round trips depends on float rounding and libm; enumerated, not proved"],
     },
     "C04": {
+        "cli": True,
         "model_is_reference": True,
         "reference_note": "the Lean colour model is written from the published definitions; a disagreement beyond 1e-9 (floats) or in an 8-bit channel is the violation",
         "rule": "forward: all coordinates of 8-bit colours (lattice, primaries, threshold neighbours, all grays, random); inverse: coordinate tuples in and far outside the gamut; non-trivial = not a gray (forward) / every tuple (inverse); distinct by operation text",
         "trust": ["the reference evaluation is the Lean model read at Float; its constants are pinned by the theorems"],
     },
     "C05": {
+        "cli": True,
         "rule": "complete cross product of the 28-value boundary alphabet in three arguments of each of the 9 float constructors, boundary amounts for every adjustment, boundary fractions for mixing, random arguments; every produced colour goes through the validity oracle; all counted cases are non-trivial (boundary or random arguments)",
         "trust": ["that float rounding never pushes a derived channel outside [0,1] by more than 1e-12 is observed, not proved"],
     },
@@ -30,6 +32,7 @@ PROPS = {
         "trust": ["luminance monotonicity under lighten/darken is searched (1e-12 noise allowance), not proved"],
     },
     "C07": {
+        "cli": True,
         "rule": "structured pairs (grays, primaries, antipodal hues 179.9/180/180.1, translucent) and random 8-bit / HSL-float pairs x 6 spaces x fractions {0,1,-1,2,NaN,dyadic,random}; non-trivial = distinct operands and 0<f<1",
         "trust": ["the 'at most 1 per channel under swap' clause and endpoint exactness in Lab/LCh/OkLab are float statements: enumerated, not proved"],
     },
@@ -87,6 +90,7 @@ PROPS = {
         ]
 },
     "C01": {
+        "cli": True,
         "model_is_reference": True,
         "reference_note": "the Lean parser model is the formalisation of the documented grammar (accept/reject and denoted colour); a string on which pastel and the model differ is the failing input",
         "rule": "rendered syntax trees of all ten notations with every separator / blank / case / unit / number-spelling choice (integers, decimals, leading dot, trailing dot, signed, exponent forms, nan/inf spellings, 1e400), Unicode whitespace wrapping, character-level edits from a notation-specific alphabet (incl. KELVIN SIGN, NBSP, emoji), arbitrary ASCII / Unicode / lossy-bytes strings, all 148 names in three casings, a hand-written corpus; non-trivial = accepted string; distribution reports accept/reject per generator",
